@@ -1,11 +1,39 @@
 # property -> legs.  Only claimed properties appear here; MANIFEST.json is generated from this table
 # by tools/gen_manifest.py.
 PROPS = {
+ 'C09': {
+   'verus': ['c09'], 'kani': [],
+   'level': 'proof', 'design_ref': '4.9',
+   'technique': 'Verus function contracts on extracted real functions against spec functions written from the Redis Cluster spec; Kani commuting-square proof for the CRC table step',
+   'level_text': 'x',
+   'level_note': 'x',
+   'explanation': 'x',
+ },
  'C19': {
    'verus': ['c19'], 'kani': ['c19'],
    'level': 'proof',
+   'design_ref': '4.19',
+   'technique': 'Verus function contracts on the extracted real functions (postcondition = statement-level ttl spec) + bounded Kani harness on the compiled functions for counterexamples',
+   'level_text': 'Deductive proof (Verus, unbounded, every byte string) that the two real PTTL->RESTORE-ttl functions satisfy the statement: ttl n>=1 restored with 1<=m<=n, n==0 restored with m>=1 (never persistent), -1 stays persistent. The three async transfer paths are tied to these functions by a syntactic call-site scan only (declared as a scan). A Kani harness over all replies of <=3 bytes (bounded) runs the same oracle on the compiled code with the real btoi crate and supplies counterexamples that are replayed on /repo by a native test.',
+   'level_note': 'Trusted: btoi::btoi::<i64> by assumed contract (cross-checked by Kani on <=3 bytes), slice equality shim, Verus/Z3, Kani/CBMC, the extractor (rules R1 R5 R10 R11 logged in the evidence). Not covered: the async callers (scan only), Redis own PTTL/RESTORE behaviour.',
    'explanation': 'pttl_to_restore_expire_time / pttl_need_to_be_no_expire proved (Verus, unbounded) against the statement-level spec spec_restore_ttl_ok for every PTTL reply; the call sites of the three transfer paths are covered by a syntactic scan only; Kani harnesses (<= 3 bytes, bounded) supply counterexamples and cross-check the assumed btoi contract.',
    'not_under_contract': ['forward_entries / produce_entries / get_data_entry (async): only the call-site scan', 'gen_restore_resp: see C20/C19 notes in DESIGN 4.19'],
    'assumptions': ['Redis PTTL/RESTORE semantics as in the statement (0 = no expiry for RESTORE)'],
  },
+}
+
+NOTES = 'Contract-based deductive verification only (see DESIGN.md). exit 2 = undecided (lost anchor / unsupported construct / resource limit), never an alarm.'
+NOT_APPLICABLE = {
+ 'C02': 'composition of async processes (client following MOVED across proxies fed through the coordinator); no function contract expresses it; per-proxy ingredients are claimed under C09/C14/C06',
+ 'C03': 'sequential consistency under interleavings of scan, pull, push and client traffic against two Redis servers: schedule- and history-quantified, state outside the program',
+ 'C05': 'MetaManager::set_meta / ReplicatorManager::update_replicators need tokio, ArcSwap, DashMap and quantify over concurrent deliveries: outside Verus subset and Kani (no threads)',
+ 'C07': 'fault sequences and crash points across broker, coordinator, proxies; async streams; liveness is not a contract',
+ 'C08': 'request/reply association under poll interleavings of hand-written Future/Stream state machines on tokio I/O',
+ 'C12': 'allocator is nested HashMap<String,..> with max_by_key/min_by closures: outside Verus subset and the rewrite-rule cap; CBMC cannot execute it (timeouts measured)',
+ 'C17': 'round trips through String, format!, str::parse, serde_json, gzip, base64: no byte-level str reasoning in Verus; CBMC does not get through fmt/serde/flate2',
+ 'C18': 'get_failures is values_mut + HashMap::retain + filter chains over chrono arithmetic: outside the rule cap; CBMC cannot run a two-entry HashMap in 20 minutes',
+ 'C10': 'kernel parsable but the balance (counting) proof through three nested loops is not completed; CBMC cannot execute it',
+ 'C20': 'value-index table proof not completed (division arithmetic over MSET indices); zstd round trip would be assumed',
+ 'C01': 'not yet built in this session', 'C04': 'not yet built in this session', 'C06': 'not yet built in this session', 'C09': 'not yet built in this session',
+ 'C11': 'not yet built in this session', 'C13': 'not yet built in this session', 'C14': 'not yet built in this session', 'C15': 'not yet built in this session', 'C16': 'not yet built in this session',
 }
